@@ -31,6 +31,12 @@ struct ToolPlan {
 	int code = 0;  // 0: default (exit 1 / SIGSEGV+core); else exit code, or wait status word for the signal mode
 };
 
+struct StopPlan {
+	int kind = 0, occ = 0;
+	int at = 0;        // own step at which the tool receives SIGSTOP
+	int duration = 0;  // scheduler steps until SIGCONT
+};
+
 struct Fault {
 	std::string call;  // spawn pipe fcntl fa_init fa_adddup2 mkstemp alloc
 	int index = 0;     // n-th call of that kind made by the driver
@@ -43,6 +49,7 @@ struct Scenario {
 	int stdin_units = 3;
 	std::vector<ToolPlan> plans;
 	std::vector<Fault> faults;
+	std::vector<StopPlan> stops;             // a tool is stopped and later continued: a delay the driver must not mistake for an exit
 	std::vector<std::string> missing_tools;   // tool names absent from PATH
 	bool readlink_fail = false;
 	int stray_exit_step = -1;                 // -1: no stray child
